@@ -86,6 +86,24 @@ Proof. vm_compute. reflexivity. Qed.
 Theorem C03_trace_table_nonempty : (30 <=? List.length trace_table) = true.
 Proof. vm_compute. reflexivity. Qed.
 
+(* 9. root completeness: every table that holds heap values (the 'v-typed fields of Module and Evaluator, and the fields of the
+      heap itself that hold values: the string interner behind Heap::alloc_str_intern) is traced by the root-set functions
+      Module::trace / Evaluator::trace on EVERY path: the translator lists the `.trace*(tracer)` calls in source order with
+      "unconditional" = no return/break/continue/?/panic textually before the call and every enclosing block is a test of that
+      very root (`if let Some(x) = extra_value`, `for frame in frame_stack`).  Finite; the extracted lists are the bound. *)
+Definition root_visited (calls : list (string * string * bool)) (req : string * string) : bool :=
+  let '(f, r) := req in
+  existsb (fun c => let '(f', r', u) := c in String.eqb f f' && String.eqb r r' && u) calls.
+
+Theorem C03_roots_complete_extracted : forallb (root_visited root_calls) root_required = true.
+Proof. vm_compute. reflexivity. Qed.
+
+Theorem C03_roots_required_nonempty :
+  (8 <=? List.length root_required) = true /\
+  existsb (fun q => String.eqb (snd q) "heap.str_interner") root_required = true /\
+  existsb (fun q => String.eqb (snd q) "extra_value") root_required = true.
+Proof. vm_compute. repeat split; reflexivity. Qed.
+
 (* ---- the hypotheses are satisfiable / necessary ------------------------------------------------ *)
 
 (* a heap with a 2-cycle, a shared cell, a self loop and garbage *)
